@@ -56,6 +56,10 @@ class Recorder:
         self.origin_changed_steps = [0, 0]
         self.trace = []          # schedule actually executed
         self.spell_roots = True
+        # names freed (deleted / renamed away) since the last quiescence, per side: reusing such a name inside the unsynced
+        # window is a measured weak spot of the pinned engine (known finding); the generator avoids it by construction
+        self.freed = [set(), set()]
+        self.avoid_reuse = True
 
     def fresh(self):
         t = self.next_tag
@@ -87,6 +91,13 @@ class Recorder:
             killed = tag_of(t[rels[0]][1])
         if kind == "rename" and rels[1] in t and t[rels[1]][0] == "f":
             pass
+        if self.avoid_reuse and kind in ("create", "mkdir", "rename"):
+            dest = rels[-1]
+            fold = (lambda x: x.lower()) if not self.w.provs[side].case_sensitive else (lambda x: x)
+            for f in self.freed[0] | self.freed[1]:
+                if fold(dest) == fold(f) or fold(dest).startswith(fold(f) + "/") or fold(f).startswith(fold(dest) + "/"):
+                    self.rejected += 1
+                    return False
         args = [self.abs(side, r) for r in rels]
         if kind in ("create", "write"):
             args.append(content(tag))
@@ -96,6 +107,8 @@ class Recorder:
             self.rejected += 1
             return False
         self.ops.append((side, kind) + tuple(rels) + ((tag,) if tag is not None else ()))
+        if kind in ("delete", "rename"):
+            self.freed[side].add(rels[0])
         if kind == "create":
             self.ledger.append("W:%d:~" % tag)
         elif kind == "write":
@@ -200,6 +213,7 @@ class Recorder:
             if not self.w.busy():
                 quiet_rounds += 1
                 if quiet_rounds >= 2:
+                    self.freed = [set(), set()]
                     return True
             else:
                 quiet_rounds = 0
@@ -288,8 +302,10 @@ def fam_conflict(rec, nops):
     return {"quiet": q, "L": rec.w.tree(0), "R": rec.w.tree(1), "ledger": list(rec.ledger)}
 
 
-def op_token(o):
+def op_token(o, fold=False):
     kind = o[1]
+    if fold:
+        o = tuple(x.lower() if isinstance(x, str) and x.startswith("/") else x for x in o)
     if kind == "create":
         return "C:%s:%d" % (enc_rel(o[2]), o[3])
     if kind == "write":
